@@ -423,12 +423,25 @@ func (e *Engine) sliceOp(st *State, xv Value, lo, hi, mx *Term) []Outcome {
 			if l > len(c.B) {
 				continue
 			}
-			b := c.B[l:]
-			n := e.tb.Bin(OpSub, hi, e.tb.Int64(cl.v))
-			if n.IsConst() {
-				b = b[:n.Val]
+			his := []concrete{{cl.st, 0}}
+			if !e.cfg.SymbolicLen && !hi.IsConst() {
+				his = e.concretize(cl.st, hi)
 			}
-			outs = append(outs, Outcome{st: cl.st, ret: &StrV{N: n, B: b}})
+			for _, ch := range his {
+				h := hi
+				if !e.cfg.SymbolicLen && !hi.IsConst() {
+					h = e.tb.Int64(ch.v)
+				}
+				b := c.B[l:]
+				n := e.tb.Bin(OpSub, h, e.tb.Int64(cl.v))
+				if n.IsConst() {
+					if n.SVal() < 0 || int(n.SVal()) > len(b) {
+						panic(e.abort("string slice [%d:%d] outside capacity %d (infeasible path kept?)", l, ch.v, len(c.B)))
+					}
+					b = b[:n.Val]
+				}
+				outs = append(outs, Outcome{st: ch.st, ret: &StrV{N: n, B: b}})
+			}
 		}
 		return outs
 	case *SliceV:
@@ -449,8 +462,18 @@ func (e *Engine) sliceOp(st *State, xv Value, lo, hi, mx *Term) []Outcome {
 		}
 		for _, cl := range e.concretize(s, lo) {
 			for _, cm := range e.concretize(cl.st, mx) {
-				n := e.tb.Bin(OpSub, hi, e.tb.Int64(cl.v))
-				outs = append(outs, Outcome{st: cm.st, ret: &SliceV{Obj: c.Obj, Path: c.Path, Off: c.Off + int(cl.v), N: n, Cap: int(cm.v - cl.v)}})
+				his := []concrete{{cm.st, 0}}
+				if !e.cfg.SymbolicLen && !hi.IsConst() {
+					his = e.concretize(cm.st, hi)
+				}
+				for _, ch := range his {
+					h := hi
+					if !e.cfg.SymbolicLen && !hi.IsConst() {
+						h = e.tb.Int64(ch.v)
+					}
+					n := e.tb.Bin(OpSub, h, e.tb.Int64(cl.v))
+					outs = append(outs, Outcome{st: ch.st, ret: &SliceV{Obj: c.Obj, Path: c.Path, Off: c.Off + int(cl.v), N: n, Cap: int(cm.v - cl.v)}})
+				}
 			}
 		}
 		return outs
